@@ -353,8 +353,11 @@ class WriteFaults(Engine):
                         "end": min(length, gene[1] + rng.choice([0, 10, 200])), "label": "sim-sub"})
         if rng.random() < 0.6:
             gene = rng.choice(record["genes"])["parts"][0]
+            left, right = rng.choice([0, 100]), rng.choice([0, 100])
+            if not record.get("circular"):      # on a linear record neighbourhoods must stay inside
+                left, right = min(left, gene[0]), min(right, length - gene[1])
             proto.append({"core_start": gene[0], "core_end": gene[1], "product": "sim-product",
-                          "neighbourhood_left": rng.choice([0, 100]), "neighbourhood_right": rng.choice([0, 100])})
+                          "neighbourhood_left": left, "neighbourhood_right": right})
         return {"tool": {"name": "simtool", "version": "1.0", "description": "simulated annotations",
                          "configuration": {"verbose": "true"}},
                 "records": [{"name": record["id"], "subregions": sub, "protoclusters": proto}]}
